@@ -4,6 +4,7 @@ closed after every upload, and the result is truthful (C04 / C11).
 Bound: 2-3 directories (<= 3 files, one shared), 1-2 failing objects, error kinds {EIO at put_file, FileNotFoundError because the
 source object vanished after the status query, corrupt source object under verify=True}, with/without a destination index; n transfers (seeded)."""
 import logging; logging.disable(logging.CRITICAL)
+import _memfs  # noqa: E402
 import hashlib, json, os, random, sys, tempfile
 from contextlib import closing
 SRC = os.environ.get("PYVC_REPO_SRC", "/repo/src")
@@ -73,6 +74,7 @@ def main(n, seed):
     rnd = random.Random(seed)
     fails, distinct = [], set()
     for case in range(n):
+        _memfs.reset()
         if case % 10 == 9:
             try:
                 pr = multi_fs_source(case)
